@@ -163,6 +163,7 @@ func (fv *FuncVerifier) evalClause(st *State, cl *Clause, pos token.Pos, names m
 		}
 	}
 	env.oldB = fv.entryParams
+	env.gparams = cc.params
 	for n, o := range cc.params {
 		if t, ok := names[n]; ok {
 			env.binds[o] = t
@@ -203,6 +204,8 @@ func (fv *FuncVerifier) evalClauseFor(fi *FuncInfo, st *State, cl *Clause, binds
 // ---- spec functions ----
 
 type specDef struct {
+	recursive  bool
+	inProgress bool
 	name     string
 	heapKeys []string
 	heapSort map[string]Sort
@@ -230,6 +233,11 @@ func (fv *FuncVerifier) specApp(st *State, env *Env, call *ast.CallExpr, fn *typ
 	}
 	for _, k := range sd.heapKeys {
 		args = append(args, fv.heapGet(st, k, sd.heapSort[k]))
+	}
+	if sd.inProgress {
+		args = append([]Term{{S: "$FUEL", Sort: "Fuel"}}, args...)
+	} else if sd.recursive {
+		args = append([]Term{{S: "(FS (FS FZ))", Sort: "Fuel"}}, args...)
 	}
 	return App(sd.res, sd.name, args...)
 }
@@ -259,6 +267,8 @@ func (fv *FuncVerifier) specDefine(fn *types.Func) *specDef {
 	}
 	// iterate to a fixpoint of heap dependencies (self recursion passes its own heap params through)
 	sd.ok = true
+	sd.inProgress = true
+	defer func() { sd.inProgress = false }()
 	var body Term
 	var params []string
 	for iter := 0; iter < 4; iter++ {
@@ -320,11 +330,36 @@ func (fv *FuncVerifier) specDefine(fn *types.Func) *specDef {
 			recursive = true
 		}
 	})
-	kw := "define-fun"
-	if recursive {
-		kw = "define-fun-rec"
+	if !recursive {
+		text := fmt.Sprintf("(define-fun %s (%s) %s\n  %s)\n", sd.name, strings.Join(params, " "), sd.res, body.S)
+		fv.w.AddDef("spec:"+sd.name, []string{sd.name}, text)
+		return sd
 	}
-	text := fmt.Sprintf("(%s %s (%s) %s\n  %s)\n", kw, sd.name, strings.Join(params, " "), sd.res, body.S)
+	// recursive spec function: uninterpreted function with a fuel argument (Dafny-style): an application with fuel
+	// (FS f) unfolds once into applications with fuel f; fuel never changes the value (synonym axiom).
+	sd.recursive = true
+	var sorts, names []string
+	for _, p := range params {
+		p = strings.TrimSuffix(strings.TrimPrefix(p, "("), ")")
+		i := strings.Index(p, " ")
+		names = append(names, p[:i])
+		sorts = append(sorts, p[i+1:])
+	}
+	app := func(fuel string) string {
+		return "(" + sd.name + " " + fuel + " " + strings.Join(names, " ") + ")"
+	}
+	if len(names) == 0 {
+		app = func(fuel string) string { return "(" + sd.name + " " + fuel + ")" }
+	}
+	binders := "(fu$ Fuel)"
+	for i := range names {
+		binders += fmt.Sprintf(" (%s %s)", names[i], sorts[i])
+	}
+	bodyText := strings.ReplaceAll(body.S, "$FUEL", "fu$")
+	text := fmt.Sprintf("(declare-fun %s (Fuel %s) %s)\n(assert (forall (%s) (! (= %s %s) :pattern (%s))))\n(assert (forall (%s) (! (= %s\n  %s) :pattern (%s))))\n",
+		sd.name, strings.Join(sorts, " "), sd.res,
+		binders, app("(FS fu$)"), app("fu$"), app("(FS fu$)"),
+		binders, app("(FS fu$)"), bodyText, app("(FS fu$)"))
 	fv.w.AddDef("spec:"+sd.name, []string{sd.name}, text)
 	return sd
 }
@@ -704,6 +739,32 @@ func (fv *FuncVerifier) verifyUnit(lit *ast.FuncLit) {
 	for _, cl := range fi.Contr.Get("assume", 0, fv.curLit) {
 		st.Assume(fv.evalClause(st, cl, pos, nil, nil))
 	}
+	// `stable p.f, q.g`: these cells are assumed not to be modified by calls with unknown effects
+	for _, cl := range fi.Contr.Get("stable", 0, fv.curLit) {
+		for _, tgt := range splitTopLevel(cl.Text, ',') {
+			parts := strings.Split(strings.TrimSpace(tgt), ".")
+			if len(parts) != 2 {
+				fv.bindErrors = append(fv.bindErrors, cl.Pos+": stable target must be param.field")
+				continue
+			}
+			for o, v := range fv.entryParams {
+				if o.Name() != parts[0] {
+					continue
+				}
+				if pt, ok := o.Type().Underlying().(*types.Pointer); ok {
+					if stt, ok := pt.Elem().Underlying().(*types.Struct); ok {
+						for j := 0; j < stt.NumFields(); j++ {
+							if stt.Field(j).Name() == parts[1] {
+								key := fieldKey(o.Type(), parts[1])
+								fv.readField(st, v, key, fv.sortOf(stt.Field(j).Type()))
+								st.stableCells = append(st.stableCells, stableCell{key, v})
+							}
+						}
+					}
+				}
+			}
+		}
+	}
 	// vacuity: the preconditions must be satisfiable
 	if len(fi.Contr.Get("requires", 0, fv.curLit)) > 0 {
 		fv.obls = append(fv.obls, &Obligation{Func: fi.Key, Class: "V", Kind: "requires-sat", Site: pos, Pos: fv.pos(pos),
@@ -759,6 +820,8 @@ func (fv *FuncVerifier) verifyUnit(lit *ast.FuncLit) {
 				fv.obls = append(fv.obls, &Obligation{Func: fi.Key, Class: "F", Kind: "ensures", Site: site, Pos: fv.pos(site),
 					Assume: append([]Term(nil), s2.pc...), Goal: g, Desc: "postcondition: " + cl.Text, consts: fv.consts,
 					Name: fmt.Sprintf("%s#F.ensures[%s%d]", fi.Key, litPrefix(fv.curLit), cl.Ord)})
+				// later postconditions on this path may rely on earlier ones (each is checked separately)
+				s2.Assume(g)
 			}
 			// iterator literal: `yields E` at function level (for the returned literal) => stopped || out == E
 			if lit != nil && fv.yieldVar != nil {
@@ -846,8 +909,13 @@ func (fv *FuncVerifier) frameObligations(s2 *State, site token.Pos) {
 				star = true
 				continue
 			}
+			isContent := false
+			if strings.HasPrefix(tgt, "content(") && strings.HasSuffix(tgt, ")") {
+				isContent = true
+				tgt = tgt[len("content(") : len(tgt)-1]
+			}
 			parts := strings.Split(tgt, ".")
-			if len(parts) == 1 {
+			if len(parts) == 1 && !isContent {
 				paramTargets[parts[0]] = true
 				continue
 			}
@@ -863,6 +931,9 @@ func (fv *FuncVerifier) frameObligations(s2 *State, site token.Pos) {
 			}
 			ref := fv.entryParams[pobj]
 			ct := pobj.Type()
+			if isContent && len(parts) == 1 {
+				targets = append(targets, target{contentKey, ref})
+			}
 			for k := 1; k < len(parts); k++ {
 				p, ok := ct.Underlying().(*types.Pointer)
 				if !ok {
@@ -881,11 +952,28 @@ func (fv *FuncVerifier) frameObligations(s2 *State, site token.Pos) {
 					break
 				}
 				key := fieldKey(ct, fld.Name())
-				if k == len(parts)-1 {
+				if k == len(parts)-1 && isContent {
+					ref = fv.readField(fv.entry, ref, key, fv.sortOf(fld.Type()))
+					targets = append(targets, target{contentKey, ref})
+				} else if k == len(parts)-1 {
 					targets = append(targets, target{key, ref})
 				} else {
 					ref = fv.readField(fv.entry, ref, key, fv.sortOf(fld.Type()))
 					ct = fld.Type()
+				}
+			}
+		}
+	}
+	mk0 := func(name string, goal Term, desc string) {
+		fv.obls = append(fv.obls, &Obligation{Func: fv.fn.Key, Class: "R", Kind: "frame", Site: site, Pos: fv.pos(site),
+			Assume: append([]Term(nil), s2.pc...), Goal: goal, Desc: desc, consts: fv.consts, Name: fv.fn.Key + "#R.frame[" + name + "]"})
+	}
+	if !c.Has("effects", 0) {
+		for _, k := range []string{"fx", "calls", "pipeline"} {
+			if hf, ok := s2.heap["$ghost:"+k]; ok {
+				h0 := fv.heapGet(fv.entry, "$ghost:"+k, hf.Sort)
+				if hf.S != h0.S {
+					mk0("log:"+k, fv.w.SeqEq(hf, h0), "the ghost "+k+" log is unchanged (the contract has no `effects` clause)")
 				}
 			}
 		}
